@@ -69,7 +69,7 @@ Section Pay.
   (* payShardersAndDelegates *)
   Definition mf_pay_sharders (gn : mf_gn) (sharders : list mf_node) (reward : Z) (draws : list (list nat)) : sp_res (list mf_node) :=
     match sharders with
-    | [] => SpPanic   (* currency.DistributeCoin(reward, 0): integer divide by zero *)
+    | [] => SpOk []   (* if n == 0 { return nil }: no sharder to reward *)
     | _ :: _ => mf_pay_nodes sharders (mf_shares reward (length sharders)) (gn_nsd gn) draws
     end.
 
